@@ -19,6 +19,14 @@ CHECKS = {
              'the Python decoder; correspondence run of real decode vs Py.decode; property oracle decode(encode(v)) on real objects.',
         note='Composite round trip induction is the stated target; greedy tails not ending aligned are excluded as the property says.',
         technique='Lean 4 proof over an executable model + differential correspondence with the real codec', ref='5/C02'),
+    'C03': dict(
+        text='Lean 4 theorems about the model of the generated C++ full codec (scalar wire compatibility at any buffer position in both '
+             'byte orders; C++ scalar encoder writes the Spec bytes) and tables; the model (generator statements x template semantics on an '
+             'abstract machine, driven by the model of prophyc layout) is tied to the code by running real generated codecs (g++, ASan, UBSan) '
+             'on the same bytes; the property itself is evaluated on the real code: canonical bytes (Spec.enc and real Python output) are '
+             'decoded by C++ and re-encoded for little, big and native.',
+        note='Full induction over schemas is the stated target. Known finding D4 (optional of a struct holding a limited array) matched by signature. g++ x86-64 ABI and sanitizer semantics are trusted.',
+        technique='Lean 4 proof over an executable model of generated code + differential correspondence with compiled C++', ref='5/C03'),
     'C04': dict(
         text='Lean 4 theorems relating the three layout computations (Spec of docs/encoding.rst, model of prophy/generators.py '
              'add_attributes, model of prophyc/model.py evaluate_sizes) and table obligations over BUILTIN_SIZES/DISC_SIZE/ENUM_SIZE '
@@ -27,6 +35,14 @@ CHECKS = {
              'length implied by the signed paddings vs canonical length, len(encode()) of fixed types.',
         note='C++ constants (encoded_byte_size, sizeof) are compared in the C05/C08 driver batches. Float division in evaluate_union_size is modelled as integer division (exact below 2^53).',
         technique='Lean 4 proof over executable models + differential correspondence with prophyc.main()', ref='5/C04'),
+    'C05': dict(
+        text='Lean 4 theorems: whenever the vector API returns, the vector has exactly get_byte_size() bytes; it faults exactly when the '
+             'pointer encoder writes at an index beyond get_byte_size(); nearest<N> rounds up to a multiple of N. The model of '
+             'generate_struct_get_byte_size / generate_struct_encode is compared with the compiled generated code on objects including '
+             'vectors grown beyond their limits; the property (size = bytes written = vector length = encoded_byte_size, no overrun) is '
+             'evaluated on the real code under ASan with a sentinel-filled over-allocation.',
+        note='Equality of get_byte_size and bytes written for all schemas is the stated target theorem. Known finding D4 matched by signature.',
+        technique='Lean 4 proof over an executable model of generated code + differential correspondence with compiled C++', ref='5/C05'),
     'C06': dict(
         text='Lean 4 theorems about the decoder model in which exceptions are data (the length guard makes struct.error unreachable '
              'for every buffer and position; decoded counters never exceed the guard extracted from the source); correspondence of '
@@ -34,6 +50,14 @@ CHECKS = {
              '(only ProphyError; result encodes; decode(encode()) fixpoint; time bound) on the real code.',
         note='Full induction over schemas is the stated target. Known finding D21 (greedy tail not ending aligned) is matched by signature. Wall time / memory are runtime facts measured by the harness, not theorems.',
         technique='Lean 4 proof over an executable model + differential correspondence on malformed inputs', ref='5/C06'),
+    'C07': dict(
+        text='Lean 4 theorems about the abstract machine of the C++ decoder (wrapping size_t(end-pos), fault = read outside the buffer): '
+             'accept implies the whole input was consumed; with the cursor inside the buffer a scalar decode never reads outside and keeps '
+             'the cursor inside; advance and align steps keep the cursor inside. Correspondence of the decoder model with the compiled '
+             'generated decoder on a malformed stream; the property (no sanitizer fault, no exception, bounded allocation, accepted inputs '
+             're-encode to the same length) is evaluated on the real code under ASan/UBSan with an allocation-recording operator new.',
+        note='The induction `no fault for every schema` is the stated target. Real memory use and UB are runtime facts observed by sanitizers, not theorems.',
+        technique='Lean 4 proof over an abstract machine + differential correspondence with compiled C++ under sanitizers', ref='5/C07'),
     'C14': dict(
         text='Lean 4 theorems over tables regenerated from the sources on every run (the yacc precedence tables of the prophy parser '
              'and of calc are equal and are exactly the levels of the model parser; every binop action applies the integer operator, '
@@ -51,6 +75,13 @@ CHECKS = {
              'DAGs x permutations; the property itself (permutation, order, import of generated Python, equal layouts) is evaluated on the real tool.',
         note='Success on every acyclic input (the rotation bound never rejects a DAG) is argued in DESIGN.md and exercised by the run; its Lean proof is listed as target.',
         technique='Lean 4 proof (induction over the rotation loop) + differential correspondence with prophyc.main()', ref='5/C15'),
+    'C18': dict(
+        text='Lean 4 theorems, complete for the modelled text functions: for every message type built from integers, enums, bytes and '
+             'composites at any nesting and every value whose bytes fields have a single-quote Python repr, Python str() equals C++ print() '
+             '(C18_str_eq_print, by mutual structural induction); printing any member leaves the stream formatting state unchanged; the 256-byte '
+             'escape tables agree. Both text models are tied to the code by comparing them with the real str() and the real print() of compiled C++.',
+        note='Floating point formatting excluded as the property says. libstdc++ ostream semantics are trusted (modelled state: the hex flag).',
+        technique='Lean 4 proof (mutual structural induction) + differential correspondence with Python and compiled C++', ref='5/C18'),
     'C19': dict(
         text='Lean 4 theorems: for every chunk list (hence every message of every schema) the big-endian rendering is the little-endian '
              'one with each scalar reversed in place, same length, every padding byte zero. The real Python LE/BE outputs are checked '
